@@ -1,4 +1,5 @@
 import logging
+import os
 from progressbar import progressbar
 from typing import Optional, Sequence
 from pathlib import Path
@@ -8,6 +9,10 @@ from dliswriter.utils.internal.types import file_name_type, number_type, bytes_t
 from dliswriter.logical_record.misc import StorageUnitLabel
 
 logger = logging.getLogger(__name__)
+
+# verification hook (off unless WELL_ID_DLISWRITER_VERIF=1): observers of every physical write
+_VERIF_TAP = os.environ.get('WELL_ID_DLISWRITER_VERIF') == '1'
+_verif_flush_sinks: list = []
 
 
 class ByteWriter:
@@ -55,6 +60,10 @@ class ByteWriter:
 
         self._append = True  # in the future calls, append bytes to the file
         self._total_size += (size or len(bts))
+
+        if _VERIF_TAP:
+            for _sink in _verif_flush_sinks:
+                _sink(self._filename, mode, len(bts), self._total_size)
 
 
 class BufferedOutput:
